@@ -10,6 +10,8 @@ UNITS = {
     "b32": {"driver": "B32", "harness": "ops_b32", "gens": "b32", "props": {"C17": []}},
     "simd": {"driver": "Simd", "harness": "ops_simd", "gens": "simd",
              "props": {"C16": ["CxVerif.Props.C16.Sha256", "CxVerif.Props.C16.Blake2"]}},
+    "hashlen": {"driver": "HashLen", "harness": "ops_hashlen", "gens": "hashlen",
+                "props": {"C01": ["CxVerif.Props.C20.HashLen"], "C20": ["CxVerif.Props.C20.HashLen"]}},
     "leak": {"driver": None, "harness": None, "gens": None, "props": {"C19": ["CxVerif.Props.C19.Leak"]}},
     "blake2": {"driver": "Blake2", "harness": "ops_blake2", "gens": "blake2",
                "props": {"C01": ["CxVerif.Props.C01.Blake2"], "C02": ["CxVerif.Props.C02.Blake2"], "C20": ["CxVerif.Props.C20.Blake2"]}},
